@@ -11,11 +11,11 @@ SPEC = dict(
     property="C01",
     component="collector",
     props_module="Refinery.Props.C01",
-    quick=dict(cases=240, len=60, shards=4),
+    quick=dict(cases=400, len=60, shards=4),
     thorough=dict(cases=12800, len=160, shards=16),
     nontrivial=nontrivial,
     rule="cases = random interleavings of span arrivals (on time / late / racing sendTraces), ticks at a chosen trace's "
-         "deadline, whole-worker ticks, memory ejections, sendTraces iterations and reloads (sampler generation, DryRun) on a "
+         "deadline, whole-worker ticks, memory ejections, sendTraces iterations, reloads (sampler generation, DryRun), kept-capacity resizes (35 in 100 cases) and stress-relief episodes in which spans take ProcessSpanImmediately (30 in 100 cases) on a "
          "real InMemCollector with 1-4 workers and kept-record capacity 1-3 (or 50), run to quiescence; non-trivial = a "
          "decision took a trace, a later span of a decided trace met its record (forwarded or dropped as late span) and the "
          "collector reached quiescence so that all-or-nothing was evaluated; about a quarter of the cases evict a kept record "
@@ -32,13 +32,14 @@ SPEC = dict(
              "hypotheses are necessary.  Model tied to collect.go / collector_worker.go / cuckooSentCache.go by driving a real "
              "InMemCollector (workers parked with the code's own pause channel, spans through AddSpan and the real collect loop, "
              "fake clock, recording transmission) and comparing every step, plus all-or-nothing monitors at quiescence.",
-        note="Trusted: Lean kernel; the differential check (sampled); each worker step atomic; stress relief constant off and a "
-             "single node (cluster membership stable) - both hypotheses of the property.",
+        note="Trusted: Lean kernel; the differential check (sampled); each worker step atomic; "
+             "single node (cluster membership stable); stress relief enters as the explicit hypothesis StressConstant.",
         technique="Lean 4 proof (invariants by induction over histories) + model/implementation correspondence check",
     ),
     assumptions=["each worker step (processSpan, sendExpiredTracesInCache, sendTracesEarly, reload branch) and each sendTraces "
                  "iteration runs to completion without interleaving inside it",
                  "which traces a tick/ejection takes is an input of the model (deadline arithmetic is C03/C07)",
-                 "stress relief is off (ProcessSpanImmediately is outside this model; C16)",
+                 "whether the node is stressed is an input (op `stress`); the stress level computation is C15; the router's "
+                 "stressed branch (processEvent) is replicated by the harness: Stressed() -> ProcessSpanImmediately, else AddSpan",
                  "DryRun off throughout for all-or-nothing (dry run forwards dropped traces by design; C05)"],
 )
